@@ -85,10 +85,10 @@ impl<T: BufRead> Parser<T> {
         let payee = self
             .expect_name(&c, "payee", "payee should exist")
             .map(ToOwned::to_owned)?;
-        let sign = c
-            .name("neg")
-            .map(|_| Decimal::NEGATIVE_ONE)
-            .unwrap_or(Decimal::ONE);
+        // Negation rather than a multiplication by -1: the product drops the sign of a zero amount,
+        // and the sign is what tells a refund worth less than the smallest unit from a purchase.
+        let is_refund = c.name("neg").is_some();
+        let signed = |value: Decimal| if is_refund { -value } else { value };
         let spent = match c.name("currency") {
             None => None,
             Some(currency) => {
@@ -100,7 +100,7 @@ impl<T: BufRead> Parser<T> {
                 let examount = parse_decimal(examount_str)?;
                 Some(OwnedAmount {
                     commodity: currency.as_str().to_string(),
-                    value: sign * examount,
+                    value: signed(examount),
                 })
             }
         };
@@ -111,7 +111,7 @@ impl<T: BufRead> Parser<T> {
             date,
             effective_date: edate,
             payee,
-            amount: amount * sign,
+            amount: signed(amount),
             category: String::new(),
             spent,
             exchange: None,
